@@ -62,11 +62,19 @@ func (c *decoratorController) callHook(
 		}
 	}
 
+	// A JSON null in the list decodes to a nil pointer. Such entries are
+	// tolerated, but must not reach the code that builds the desired child maps.
+	children := response.Attachments[:0]
 	for _, child := range response.Attachments {
-		if child != nil && child.GetNamespace() == "" {
+		if child == nil {
+			continue
+		}
+		if child.GetNamespace() == "" {
 			child.SetNamespace(parent.GetNamespace())
 		}
+		children = append(children, child)
 	}
+	response.Attachments = children
 
 	return &response, nil
 }
